@@ -151,6 +151,11 @@ def run_refactor(name_dir) -> dict:
             expected = json.load(open(ef)).get("rules", {})
         triaged = {k: v for k, v in fired.items() if k.split(" ")[0] in expected}
         fired = {k: v for k, v in fired.items() if k.split(" ")[0] not in expected}
+        # (a rule that gives up on the replaced mechanism — "anchor vanished" — is the same report in another form)
+        for e_ in list(errors):
+            if e_.split(":")[0] in expected:
+                triaged["%s ANALYSIS-ERROR %s" % (e_.split(":")[0], e_[:120])] = []
+                errors.remove(e_)
         stale = sorted(r_ for r_ in expected if not any(k.split(" ")[0] == r_ for k in triaged))
         return {"name": name, "status": "ran", "fired": fired, "errors": sorted(set(errors)), "triaged": triaged, "expected": expected, "stale": stale}
     finally:
